@@ -147,14 +147,25 @@ def _segment(rng, items, tcp):
         while i < len(items) and items[i][0] == d and items[i][1] != "close":
             chunks.append(_frame(items[i][2]) if items[i][1] == "msg" else items[i][2])
             i += 1
-        mode = rng.weighted([(4, "frames"), (3, "whole"), (3, "cuts")])
+        mode = rng.weighted([(3, "frames"), (2, "whole"), (5, "cuts")])
         stream = b"".join(chunks)
         if mode == "frames":
             parts = chunks
         elif mode == "whole":
             parts = [stream]
         else:
-            cuts = sorted({rng.randint(1, max(1, len(stream) - 1)) for _ in range(rng.randint(1, 4))})
+            ends, acc = [], 0
+            for ch in chunks:
+                acc += len(ch)
+                ends.append(acc)
+            near = sorted({e + d for e in ends for d in (-2, -1, 1, 2) if 0 < e + d < len(stream)})
+            cuts = set()
+            for _ in range(rng.randint(1, 4)):
+                if near and rng.chance(0.6):
+                    cuts.add(rng.choice(near))        # just before / after a message end, i.e. also inside the next length label
+                else:
+                    cuts.add(rng.randint(1, max(1, len(stream) - 1)))
+            cuts = sorted(cuts)
             parts, last = [], 0
             for c in cuts + [len(stream)]:
                 if c > last:
@@ -386,16 +397,30 @@ def _strip(trace):
     return [t[1:4] if t[1] in ("send", "close", "hook") else t[1:2] for t in trace]
 
 
+def _bad_frames(case, events):
+    """the messages of the two byte streams as the REFERENCE de-framer cuts them (independent of the layer's framing and of
+    the segmentation) that the real DNSMessage.unpack rejects"""
+    bad = []
+    for d in ("c", "s"):
+        chunks = [unhx(e[1]) for e in events if e[0] == d]
+        frames = _ref_frames(b"".join(chunks))[0] if case["ctcp"] else chunks
+        for f in frames:
+            try:
+                mdns.DNSMessage.unpack(f)
+            except Exception:
+                bad.append(hx(f))
+    return sorted(set(bad))
+
+
 def run_impl(case):
     try:
         obs = _drive(case, None)
         obs["fix"] = FIX
-        obs["unpack_failed"] = any(r in ("S", "O") for _, r in obs["table"])
+        obs["bad_frames"] = _bad_frames(case, obs["events"])
         if case["ctcp"]:
             merged = _merge(obs["events"])
             if merged != obs["events"]:
                 m = _drive(case, merged)
-                obs["unpack_failed"] = obs["unpack_failed"] or any(r in ("S", "O") for _, r in m["table"])
                 obs["merged_trace"] = _strip(m["trace"])
                 obs["merged_hooks"] = [[m["pool"][t[4]] if t[4] is not None else None,
                                         m["pool"][t[5]] if t[5] is not None else None] for t in m["trace"] if t[1] == "hook"]
@@ -508,7 +533,8 @@ def oracle(case, obs):
     cq = []                       # (id, question bytes) of every client message received so far
     bufs = {"c": b"", "s": b""}
     alive = True
-    had_error = bool(obs.get("unpack_failed"))   # a frame was rejected (by the reference below, or by DNSMessage.unpack in either run)
+    bad = set(obs.get("bad_frames", []))
+    had_error = False             # the reference de-framer met a zero length or a message the DNS codec rejects
     for n, e in enumerate(obs["events"]):
         here = by_ev.get(n, [])
         if e[0] in ("c", "s"):
@@ -530,8 +556,11 @@ def oracle(case, obs):
                 had_error = True
                 if not closed_here and not any(t[1] == "crash" for t in here):
                     add("zero-length-not-closed", f"event {n}: a zero length prefix from {e[0]} did not close that connection")
-            if alive and any(ref_parse(f) is None for f in frames):
+            if alive and any(ref_parse(f) is None or hx(f) in bad for f in frames):
                 had_error = True
+            if alive and not had_error and (closed_here or any(t[1] == "crash" for t in here)):
+                add("closed-well-formed-stream", f"event {n}: the layer closed connection {e[0]} (or crashed) although every complete "
+                                                 f"message received so far is well-formed and no length prefix is zero")
             # every complete frame (datagram) of a well-formed client stream is extracted when it arrives
             if alive and not had_error and e[0] == "c" and not any(t[1] == "crash" for t in here):
                 got = sum(1 for t in here if t[1] == "hook" and t[2] == "dns_request")
@@ -620,7 +649,7 @@ def oracle(case, obs):
         a = _strip(trace)
         hooks = [[pool[t[4]] if t[4] is not None else None, pool[t[5]] if t[5] is not None else None] for t in trace if t[1] == "hook"]
         if a != obs["merged_trace"] or hooks != obs["merged_hooks"]:
-            if had_error:
+            if had_error or bad:
                 add("tcp-error-discards-earlier-frames",
                     "a malformed frame arriving in the same segment as earlier complete frames discards those frames; delivered in "
                     "separate segments they are handled before the connection is closed")
